@@ -36,8 +36,8 @@ type DepBlock struct {
 	Key     int    `json:"key"`     // index into the registered keys; -1 = an unregistered key
 	EvmSeed int    `json:"evm_seed"`
 	Value   uint64 `json:"value"`
-	OutIdx  int    `json:"out_idx"` // index of the deposit output (version 1 requires 0)
-	Pad     int    `json:"pad"`     // unrelated outputs before/after
+	OutIdx  int    `json:"out_idx"`           // index of the deposit output (version 1 requires 0)
+	Pad     int    `json:"pad"`               // unrelated outputs before/after
 	CopyOf  int    `json:"copy_of,omitempty"` // 1+index of an earlier model block whose deposit transaction this block contains again (0 = none)
 }
 
@@ -51,15 +51,15 @@ type DepParams struct {
 
 type builtDepBlock struct {
 	coinbasePays bool // pos != 0 and the block's coinbase pays the deposit script too
-	copyOf *builtDepBlock
-	spec   DepBlock
-	height uint64
-	blk    *world.BtcBlock
-	pos    int
-	key    world.BtcKey
-	evm    []byte
-	outIdx uint32
-	tx     *wire.MsgTx
+	copyOf       *builtDepBlock
+	spec         DepBlock
+	height       uint64
+	blk          *world.BtcBlock
+	pos          int
+	key          world.BtcKey
+	evm          []byte
+	outIdx       uint32
+	tx           *wire.MsgTx
 }
 
 func evmOf(seed int) []byte { return world.Hash160([]byte(fmt.Sprintf("evm-%d", seed))) }
